@@ -1,18 +1,25 @@
 /-
   Model of `crates/jrsonnet-evaluator/src/arr/{mod,spec}.rs`: the array representations
-  (`ArrayLike` impls) with their `len`/`get`, and the smart constructors
-  `ArrValue::{slice,extended,repeated,reversed,range_*,map,filter}` as coded.
+  (`ArrayLike` impls) with their `len` and their THREE accessors `get` / `get_lazy` / `get_cheap`
+  (+ `is_cheap`), and the smart constructors
+  `ArrValue::{slice,extended,repeated,reversed,range_*,map,filter}` as coded, the two stdlib
+  callers of the range constructors (`builtin_range`, `builtin_make_array`) with their guards, and
+  the `Expr::Index` arm of `evaluate/mod.rs` for `(Val::Arr, Val::Num)`.
 
   Import-free (core Lean only) so that the driver links as a `lean_exe`.
 
-  Elements are `Int`s; the harness uses number arrays.  `R.panic` is "the Rust code would hit a
-  panic site here" (`expect("index checked")`, usize underflow in an overflow-checked build, `% 0`).
+  Elements are `Int`s; the harness uses number arrays (one-character strings of `CharArray` travel
+  as tagged code points).  `R.panic` is "the Rust code would hit a panic site here"
+  (`expect("index checked")`, usize underflow in an overflow-checked build, `% 0`).
 -/
 import JrsVerif.Generated.Consts
 
 namespace JrsVerif.Arr
 
-/-- result of `ArrayLike::get` : `Ok(Some v)` / `Ok(None)` / a Rust panic -/
+/-- result of an accessor: `Some v` / `None` / a Rust panic.
+    * `get`      : `Ok(Some v)` / `Ok(None)`
+    * `get_lazy` : `Some(thunk)` with the thunk forced (`thunk.evaluate()`) / `None`
+    * `get_cheap`: `Some v` / `None` (`None` also means "this representation is not cheap") -/
 inductive R where
   | val (x : Int)
   | oob
@@ -27,10 +34,12 @@ def mapF (withIndex : Bool) (i : Nat) (x : Int) : Int :=
 /-- the fixed filter predicate (`function(x) x % 2 == 0`) -/
 def filtP (x : Int) : Bool := x % 2 == 0
 
-/-- `ArrayLike` implementors (the element-carrying ones are all `vec`: Eager/Lazy/Expr/Char/Bytes
-    share `self.0.get(index)` on a `Vec`) -/
+/-- `ArrayLike` implementors.  The element-carrying ones are all `vec` (they share
+    `self.0.get(index)` on a `Vec`); the flag is their `is_cheap()`:
+    `true` = EagerArray / CharArray / BytesArray, `false` = LazyArray / ExprArray /
+    PickObjectValues (whose `get_cheap` is the constant `None`). -/
 inductive View where
-  | vec (xs : List Int)
+  | vec (xs : List Int) (cheap : Bool)
   | range (s e : Int)                          -- RangeArray {start,end}, inclusive
   | slice (inner : View) (frm to step : Nat)   -- SliceArray
   | ext (a b : View) (split len : Nat)         -- ExtendedArray
@@ -45,7 +54,7 @@ inductive View where
 def rangeLen (s e : Int) : Nat := ((e - s + 1) % (2 ^ 64 : Int)).toNat
 
 def len : View → Nat
-  | .vec xs => xs.length
+  | .vec xs _ => xs.length
   | .range s e => rangeLen s e
   | .slice _ frm to step => (to - frm + step - 1) / step      -- (to-from).div_ceil(step)
   | .ext _ _ _ l => l
@@ -54,8 +63,32 @@ def len : View → Nat
   | .mapped _ l _ => l
   | .poison => 0
 
+/-- `is_cheap()` per representation -/
+def isCheap : View → Bool
+  | .vec _ c => c
+  | .range _ _ => true
+  | .slice inner _ _ _ => isCheap inner
+  | .ext a b _ _ => isCheap a && isCheap b
+  | .rev inner => isCheap inner
+  | .rep data _ _ => isCheap data
+  | .mapped _ _ _ => false
+  | .poison => false
+
+/-- `Option::expect(..)` on an accessor result: `None` is a panic -/
+def expectSome : R → R
+  | .val x => .val x
+  | _ => .panic
+
+/-- `MappedArray::evaluate(index, inner.get_lazy(index).expect("index checked"))` with the fixed
+    mappers (both force their argument) -/
+def mapApply (wi : Bool) (i : Nat) : R → R
+  | .val x => .val (mapF wi i x)
+  | _ => .panic
+
+mutual
+/-- `ArrayLike::get` -/
 def get : View → Nat → R
-  | .vec xs, i => match xs[i]? with | some x => .val x | none => .oob
+  | .vec xs _, i => match xs[i]? with | some x => .val x | none => .oob
   | .range s e, i =>                                           -- (start..=end).nth(index)
       if s + (i : Int) ≤ e then .val (s + i) else .oob
   | .slice inner frm to step, i =>
@@ -70,17 +103,72 @@ def get : View → Nat → R
       if i ≥ total then .oob
       else if len data = 0 then .panic                         -- `index % 0`
       else get data (i % len data)
-  | .mapped inner l wi, i =>
+  | .mapped inner l wi, i =>                                   -- reads the inner array LAZILY
       if i ≥ l then .oob
-      else match get inner i with
-        | .val x => .val (mapF wi i x)
-        | .oob => .panic                                       -- expect("index checked")
-        | .panic => .panic
+      else mapApply wi i (getLazy inner i)
   | .poison, _ => .panic
 
-/-- `iter()` / `iter_lazy()` : `(0..len).map(|i| get(i).expect("length checked"))` -/
-def materialize (v : View) : Option (List Int) :=
-  (List.range (len v)).mapM (fun i => match get v i with | .val x => some x | _ => none)
+/-- `ArrayLike::get_lazy(i).map(|t| t.evaluate())` -/
+def getLazy : View → Nat → R
+  | .vec xs _, i => match xs[i]? with | some x => .val x | none => .oob
+  | .range s e, i =>                                           -- get_cheap(i).map(Thunk::evaluated)
+      if s + (i : Int) ≤ e then .val (s + i) else .oob
+  | .slice inner frm to step, i =>
+      if i ≥ (to - frm + step - 1) / step then .oob
+      else getLazy inner (frm + step * i)
+  | .ext a b split _, i =>
+      if split > i then getLazy a i else getLazy b (i - split)
+  | .rev inner, i =>
+      if i ≥ len inner then .oob
+      else getLazy inner (len inner - i - 1)
+  | .rep data _ total, i =>
+      if i ≥ total then .oob
+      else if len data = 0 then .panic
+      else getLazy data (i % len data)
+  | .mapped inner l wi, i =>
+      -- `MappedArrayThunk::get` = `self.arr.get(index).transpose().expect("index checked")`
+      -- (the body of `get` for this representation is repeated here, see `getLazy_mapped`)
+      if i ≥ l then .oob
+      else expectSome (if i ≥ l then .oob else mapApply wi i (getLazy inner i))
+  | .poison, _ => .panic
+end
+
+/-- `ArrayLike::get_cheap` -/
+def getCheap : View → Nat → R
+  | .vec xs c, i => if c then (match xs[i]? with | some x => .val x | none => .oob) else .oob
+  | .range s e, i =>
+      if s + (i : Int) ≤ e then .val (s + i) else .oob
+  | .slice inner frm to step, i =>
+      if i ≥ (to - frm + step - 1) / step then .oob
+      else getCheap inner (frm + step * i)
+  | .ext a b split _, i =>
+      if split > i then getCheap a i else getCheap b (i - split)
+  | .rev inner, i =>
+      if i ≥ len inner then .oob
+      else getCheap inner (len inner - i - 1)
+  | .rep data _ total, i =>
+      if i ≥ total then .oob
+      else if len data = 0 then .panic
+      else getCheap data (i % len data)
+  | .mapped _ _ _, _ => .oob
+  | .poison, _ => .panic
+
+/-- `(0..len).map(|i| acc(i).expect(..))` collected: `none` = one of the `expect`s failed -/
+def collect (acc : Nat → R) (n : Nat) : Option (List Int) :=
+  (List.range n).mapM (fun i => match acc i with | .val x => some x | _ => none)
+
+/-- `iter()` : `(0..len).map(|i| get(i).transpose().expect("length checked"))` -/
+def materialize (v : View) : Option (List Int) := collect (get v) (len v)
+
+/-- `iter_lazy()` : `(0..len).map(|i| get_lazy(i).expect("length checked"))`, thunks forced
+    (a thunk that would panic when forced poisons the copy here rather than at first access;
+    that only differs on states `build_good` proves unreachable) -/
+def materializeLazy (v : View) : Option (List Int) := collect (getLazy v) (len v)
+
+/-- `iter_cheap()` : `None` unless `is_cheap()`, then
+    `(0..len).map(|i| get_cheap(i).expect("length and is_cheap checked"))` -/
+def iterCheap (v : View) : Option (Option (List Int)) :=
+  if isCheap v then some (collect (getCheap v) (len v)) else none
 
 /-- `RangeArray::empty()` = `new_exclusive(0,0)` = `{start:0,end:-1}` -/
 def emptyView : View := .range 0 (-1)
@@ -98,34 +186,65 @@ def mkSlice (v : View) (s e : Option Int) (step : Option Nat) : View :=
   let st := step.getD 1
   if index ≥ end_ then emptyView else .slice v index end_ st
 
-/-- `ArrValue::extended(a,b)` -/
+/-- `ArrValue::extended(a,b)` : empty shortcuts, link above the threshold, else copy — through
+    `iter_cheap` into an EagerArray when both sides are cheap, through `iter_lazy` into a
+    LazyArray otherwise -/
 def mkExt (a b : View) : View :=
   if len a = 0 then b
   else if len b = 0 then a
   else if len a + len b > Generated.ARR_EXTEND_THRESHOLD then .ext a b (len a) (len a + len b)
-  else match materialize a, materialize b with
-    | some xs, some ys => .vec (xs ++ ys)
-    | _, _ => .poison
+  else match iterCheap a, iterCheap b with
+    | some ra, some rb =>
+        (match ra, rb with
+         | some xs, some ys => .vec (xs ++ ys) true
+         | _, _ => .poison)
+    | _, _ =>
+        (match materializeLazy a, materializeLazy b with
+         | some xs, some ys => .vec (xs ++ ys) false
+         | _, _ => .poison)
 
 /-- `ArrValue::repeated(data, repeats)` (the `checked_mul` overflow is out of the modelled range) -/
 def mkRep (v : View) (n : Nat) : View := .rep v n (len v * n)
 
 def mkRev (v : View) : View := .rev v
 
+/-- `RangeArray::new_exclusive(start,end)` : `end.checked_sub(1)`, `None` → `empty()` -/
+def newExclusive (s e : Int) : View :=
+  if e - 1 < -(2 ^ 31 : Int) then emptyView else .range s (e - 1)
+
 /-- `builtin_range(from,to)` : `to < from` is the empty array, else `range_inclusive` -/
 def mkRange (a b : Int) : View := if b < a then emptyView else .range a b
 
 def mkMap (v : View) (wi : Bool) : View := .mapped v (len v) wi
 
-/-- `ArrValue::filter` : both paths collect `iter()` in order -/
+/-- `builtin_make_array(sz: BoundedI32<0, i32::MAX>, func)` : the typed argument rejects sizes
+    outside `0..=i32::MAX` (`none`); `0` is the empty array; a function with a trivial (constant)
+    body gives an EagerArray of copies; otherwise `range_exclusive(0, sz).map(func)`.
+    `triv = some c` : the function is `function(i) c`; `none` : it is `function(i) i*3+1`. -/
+def mkMakeArray (sz : Int) (triv : Option Int) : Option View :=
+  if sz < 0 ∨ sz > 2 ^ 31 - 1 then none
+  else if sz = 0 then some emptyView
+  else match triv with
+    | none => some (mkMap (newExclusive 0 sz) false)
+    | some c => some (.vec (List.replicate sz.toNat c) true)
+
+/-- `ArrValue::filter` : both paths collect `iter()` in order; no element of the modelled arrays
+    fails, so the `'eager` block always completes and the result is an EagerArray -/
 def mkFilter (v : View) : View :=
   match materialize v with
-  | some xs => .vec (xs.filter filtP)
+  | some xs => .vec (xs.filter filtP) true
   | none => .poison
+
+/-- which `Vec`-backed representation a literal is realised as -/
+inductive LitKind where
+  | eager      -- ArrValue::eager
+  | lazy       -- ArrValue::lazy (also: array comprehension)
+  | expr       -- array literal in source: `[]` is `ArrValue::empty()`, otherwise ExprArray
+  deriving Repr, DecidableEq, Inhabited
 
 /-- array-valued expressions the generator composes -/
 inductive T where
-  | lit (xs : List Int)
+  | lit (xs : List Int) (k : LitKind)
   | range (a b : Int)
   | slice (t : T) (s e : Option Int) (step : Option Nat)
   | cat (a b : T)
@@ -133,10 +252,16 @@ inductive T where
   | rep (t : T) (n : Nat)
   | map (t : T) (withIndex : Bool)
   | filter (t : T)
+  | chars (cps : List Int)                 -- std.stringChars(s) : CharArray  (elements given)
+  | bytes (bs : List Int)                  -- std.encodeUTF8(s)  : BytesArray (elements given)
+  | objvals (xs : List Int)                -- std.objectValues(o) : PickObjectValues
+  | mkarr (n : Nat) (triv : Option Int)    -- std.makeArray(n, f)
   deriving Repr, Inhabited
 
 def build : T → View
-  | .lit xs => .vec xs
+  | .lit xs .eager => .vec xs true
+  | .lit xs .lazy => .vec xs false
+  | .lit xs .expr => if xs.isEmpty then emptyView else .vec xs false
   | .range a b => mkRange a b
   | .slice t s e st => mkSlice (build t) s e st
   | .cat a b => mkExt (build a) (build b)
@@ -144,6 +269,38 @@ def build : T → View
   | .rep t n => mkRep (build t) n
   | .map t wi => mkMap (build t) wi
   | .filter t => mkFilter (build t)
+  | .chars cps => .vec cps true
+  | .bytes bs => .vec bs true
+  | .objvals xs => .vec xs false
+  | .mkarr n triv => match mkMakeArray n triv with | some v => v | none => .poison
+
+/-! ### The `Expr::Index` arm for `(Val::Arr(v), Val::Num(n))` -/
+
+inductive IdxR where
+  | val (x : Int)
+  | bounds            -- ArrayBoundsError
+  | fractional        -- FractionalIndex
+  | panic
+  deriving Repr, DecidableEq, Inhabited
+
+/-- numerator (over `2^e`) of `n.fract()` for the double `n = m / 2^e` : `n - n.trunc()`, exact,
+    carries the sign of `n` -/
+def fractNum (m : Int) (e : Nat) : Int :=
+  if m ≥ 0 then m % (2 ^ e : Int) else -((-m) % (2 ^ e : Int))
+
+/-- `n as usize` for `n ≥ 0` : truncation, saturating at `usize::MAX` -/
+def asUsize (m : Int) (e : Nat) : Nat := min (m / (2 ^ e : Int)).toNat (2 ^ 64 - 1)
+
+/-- the arm as coded, the index being the double `m / 2^e`:
+    `if n.fract() > f64::EPSILON {FractionalIndex}; if n < 0.0 {ArrayBoundsError};
+     v.get(n as usize)?.ok_or_else(ArrayBoundsError)` -/
+def indexExpr (v : View) (m : Int) (e : Nat) : IdxR :=
+  if fractNum m e * (2 ^ 52 : Int) > (2 ^ e : Int) then .fractional
+  else if m < 0 then .bounds
+  else match get v (asUsize m e) with
+    | .val x => .val x
+    | .oob => .bounds
+    | .panic => .panic
 
 /-! ### Reference meaning: plain lists -/
 
@@ -176,8 +333,14 @@ def repSpec (xs : List Int) : Nat → List Int
   | 0 => []
   | n + 1 => xs ++ repSpec xs n
 
+/-- `std.makeArray(n, f)` = `[f(0), …, f(n-1)]` -/
+def makeArraySpec (n : Nat) (triv : Option Int) : List Int :=
+  match triv with
+  | none => (List.range n).map (fun (i : Nat) => (i : Int) * 3 + 1)
+  | some c => List.replicate n c
+
 def denote : T → List Int
-  | .lit xs => xs
+  | .lit xs _ => xs
   | .range a b => rangeSpec a b
   | .slice t s e st => sliceSpec (denote t) s e st
   | .cat a b => denote a ++ denote b
@@ -185,15 +348,32 @@ def denote : T → List Int
   | .rep t n => repSpec (denote t) n
   | .map t wi => mapIdxSpec wi 0 (denote t)
   | .filter t => (denote t).filter filtP
+  | .chars cps => cps
+  | .bytes bs => bs
+  | .objvals xs => xs
+  | .mkarr n triv => makeArraySpec n triv
 
 /-- what the language prescribes for `arr[i]` / `ArrValue::get(i)` -/
 def specGet (xs : List Int) (i : Nat) : R :=
   match xs[i]? with | some x => .val x | none => .oob
 
+/-- what the language prescribes for `arr[n]` with a number `n = m / 2^e` (read with the
+    implementation's tolerance for a fractional part of at most `f64::EPSILON`): a fractional
+    index is an error, an index below zero or at/after the length is a bounds error -/
+def specIndex (xs : List Int) (m : Int) (e : Nat) : IdxR :=
+  if 0 < m ∧ (m % (2 ^ e : Int)) * (2 ^ 52 : Int) > (2 ^ e : Int) then .fractional
+  else if m < 0 then .bounds
+  else match xs[(m / (2 ^ e : Int)).toNat]? with
+    | some x => .val x
+    | none => .bounds
+
+def I32 (x : Int) : Prop := -(2 ^ 31 : Int) ≤ x ∧ x < 2 ^ 31
+
 /-- side conditions under which the `i32`/`u32`/`usize` arithmetic of the code coincides with the
-    unbounded arithmetic of the model: range bounds are `i32`, steps are positive -/
+    unbounded arithmetic of the model: range bounds are `i32`, steps are positive, makeArray sizes
+    passed the `BoundedI32<0, i32::MAX>` argument check -/
 def T.WF : T → Prop
-  | .lit _ => True
+  | .lit _ _ => True
   | .range a b => -(2 ^ 31 : Int) ≤ a ∧ a < 2 ^ 31 ∧ -(2 ^ 31 : Int) ≤ b ∧ b < 2 ^ 31
   | .slice t _ _ st => t.WF ∧ (∀ k, st = some k → 0 < k)
   | .cat a b => a.WF ∧ b.WF
@@ -201,5 +381,21 @@ def T.WF : T → Prop
   | .rep t _ => t.WF
   | .map t _ => t.WF
   | .filter t => t.WF
+  | .chars _ => True
+  | .bytes _ => True
+  | .objvals _ => True
+  | .mkarr n _ => n < 2 ^ 31
+
+/-- the domain on which `RangeArray::len` (wrapping arithmetic) is the true length of
+    `start..=end` : both ends `i32` and `start ≤ end + 1` -/
+def RangeDom : View → Prop
+  | .vec _ _ => True
+  | .range s e => I32 s ∧ I32 e ∧ s ≤ e + 1
+  | .slice inner _ _ _ => RangeDom inner
+  | .ext a b _ _ => RangeDom a ∧ RangeDom b
+  | .rev inner => RangeDom inner
+  | .rep data _ _ => RangeDom data
+  | .mapped inner _ _ => RangeDom inner
+  | .poison => True
 
 end JrsVerif.Arr
